@@ -144,6 +144,11 @@ pub struct Found {
     pub profile: String,
     pub job: usize,
     pub count: u64,
+    /// further occurrences of the same check id (job, seed, case, msg, profile): tried when the first
+    /// one does not show again in a fresh process (state left behind by earlier runs of the worker
+    /// process made it fail, not its own case). Occurrences whose case carries its own process
+    /// history (a prelude) come first.
+    pub alternatives: Vec<(usize, u64, Value, String, String)>,
 }
 
 /// violations of `prop` in a worker answer
@@ -226,8 +231,26 @@ fn record(agg: &mut Agg, prop: &str, profile: &str, job: usize, seed: u64, res: 
             profile: profile.to_string(),
             job,
             count: 0,
+            alternatives: vec![],
         });
         e.count += 1;
+        {
+            let has_pre = |c: &Value| c.get("prelude").map(|p| p.is_object()).unwrap_or(false) || c["sim"] == json!("c");
+            e.alternatives.push((job, seed, case.clone(), msg.clone(), profile.to_string()));
+            e.alternatives.sort_by_key(|a| (!has_pre(&a.2), a.0));
+            let with: usize = e.alternatives.iter().filter(|a| has_pre(&a.2)).count().min(8);
+            let mut kept_with = 0;
+            let mut kept_without = 0;
+            e.alternatives.retain(|a| {
+                if has_pre(&a.2) {
+                    kept_with += 1;
+                    kept_with <= 8
+                } else {
+                    kept_without += 1;
+                    kept_without <= 12usize.saturating_sub(with).max(4)
+                }
+            });
+        }
         if job < e.job {
             e.job = job;
             e.seed = seed;
@@ -506,6 +529,9 @@ pub fn run_check(prop: &str, tier: &str) -> i32 {
         let (vs, _) = exec_fresh(&f.profile, &min_case, &[prop], confirm_budget);
         let confirmed_min = vs.iter().any(|(p, c, _)| p == prop && *c == f.check);
         let mut check_id = f.check.clone();
+        let mut steps_total = steps;
+        let mut rep_seed = f.seed;
+        let mut rep_profile = f.profile.clone();
         let (final_case, minimised, msg) = if confirmed_min {
             let m = vs.iter().find(|(p, c, _)| p == prop && *c == f.check).map(|x| x.2.clone()).unwrap_or_default();
             (min_case, true, m)
@@ -526,21 +552,50 @@ pub fn run_check(prop: &str, tier: &str) -> i32 {
                 }
                 (f.case.clone(), false, x.2.clone())
             } else {
-                eprintln!("harness warning: violation {} (seed {}) did not reproduce in a fresh process; not reported", f.check, f.seed);
-                unconfirmed += 1;
-                continue;
+                // other occurrences of the same class, those with their own process history first
+                let mut hit: Option<(Value, bool, String)> = None;
+                for (_, aseed, acase, _, aprofile) in f.alternatives.iter() {
+                    if *aseed == f.seed {
+                        continue;
+                    }
+                    let (va, _) = exec_fresh(aprofile, acase, &[prop], confirm_budget);
+                    let found = va.iter().find(|(p, c, _)| p == prop && *c == f.check).or_else(|| va.iter().find(|(p, _, _)| p == prop)).cloned();
+                    if let Some(x) = found {
+                        let (m2, st2) = crate::shrink::minimise(aprofile, acase, prop, &x.1, budget, shrink_budget);
+                        let (vm, _) = exec_fresh(aprofile, &m2, &[prop], confirm_budget);
+                        steps_total = steps + st2;
+                        check_id = x.1.clone();
+                        rep_seed = *aseed;
+                        rep_profile = aprofile.clone();
+                        hit = Some(match vm.iter().find(|(p, c, _)| p == prop && *c == x.1) {
+                            Some(y) => (m2, true, y.2.clone()),
+                            None => (acase.clone(), false, x.2.clone()),
+                        });
+                        eprintln!("note: {} did not show again for seed {} alone (it depended on what the worker process had run before); seed {} reproduces it from its own case", f.check, f.seed, aseed);
+                        break;
+                    }
+                }
+                match hit {
+                    Some(h) => h,
+                    None => {
+                        eprintln!("harness warning: violation {} (seed {} and {} other occurrence(s)) did not reproduce in a fresh process; not reported", f.check, f.seed, f.alternatives.len().saturating_sub(1));
+                        unconfirmed += 1;
+                        continue;
+                    }
+                }
             }
         };
+        let steps = steps_total;
         let dir = verif_dir().join("replays");
         let _ = std::fs::create_dir_all(&dir);
-        let path = dir.join(format!("{}_{}_{}.json", prop, sanitize(&check_id), f.seed));
+        let path = dir.join(format!("{}_{}_{}.json", prop, sanitize(&check_id), rep_seed));
         let replay = json!({
             "property": prop,
             "check": check_id,
             "message": msg,
-            "seed": f.seed,
+            "seed": rep_seed,
             "batch_seed": seed,
-            "profile": f.profile,
+            "profile": rep_profile,
             "minimised": minimised,
             "shrink_executions": steps,
             "occurrences_in_batch": f.count,
